@@ -118,12 +118,12 @@ func (D05) method[TM any]() {}
 `)
 	src2 := strings.Replace(src.String(), "func (D05) method[TM any]() {}\n", "", 1) // methods cannot have type parameters
 	files := map[string]string{
-		"go.mod":     "module " + pipe.ModPath + "\n\ngo 1.24\n",
+		"go.mod":       "module " + pipe.ModPath + "\n\ngo 1.24\n",
 		"d/a_first.go": "// Package d: the first documented file (by name) carries no generator tags.\npackage d\n",
-		"d/doc.go":   "// Package d is a fixture.\n//\n" + tagLines(dc.PkgTags) + "package d\n",
-		"d/doc2.go":  "// Package d has a second package comment.\n//\n// +other=1\npackage d\n",
-		"d/decls.go": src2,
-		"f/f.go":     "// Package f is foreign.\n//\n// +gengo:a\n// +gengo:ab\n// +gengo:a:b\npackage f\n\n// F0 lives in another package.\n// +gengo:a\ntype F0 struct{ Y int }\n",
+		"d/doc.go":     "// Package d is a fixture.\n//\n" + tagLines(dc.PkgTags) + "package d\n",
+		"d/doc2.go":    "// Package d has a second package comment.\n//\n// +other=1\npackage d\n",
+		"d/decls.go":   src2,
+		"f/f.go":       "// Package f is foreign.\n//\n// +gengo:a\n// +gengo:ab\n// +gengo:a:b\npackage f\n\n// F0 lives in another package.\n// +gengo:a\ntype F0 struct{ Y int }\n",
 	}
 	if err := core.WriteFiles(root, files); err != nil {
 		return nil, "", err
